@@ -18,7 +18,7 @@ mod probe_calendars;
 mod probe_linalg;
 
 fn js(s: &str) -> String {
-    s.replace('\\', "\\\\").replace('"', "\\\"")
+    s.replace('\\', "\\\\").replace('"', "\\\"").replace('\n', " ").replace('\t', " ")
 }
 
 pub fn report(kind: &str, name: &str, input: &str, observed: &str, expected: &str, holds: bool) {
